@@ -249,6 +249,47 @@ func init() {
 		})
 	}
 	p.Strata = append(p.Strata, mon.Stratum{
+		Name: "setkeys-two-keys-some-members-partial",
+		N:    qt(4000, 80000),
+		Run: func(c *mon.Ctx, i int) {
+			// two set keys; members carry both or only the first one (ids stay unique, so identity is still well defined)
+			m := V1Set{Name: "v1:SET+Setkeys(id,k2)", MD: func() []lib.Metadata { return []lib.Metadata{lib.SET, lib.Setkeys("id", "k2")} }, Reading: ref.Set, Keys: []string{"id", "k2"}}
+			n := c.R.Range(1, 4)
+			mk := func() []any {
+				arr := []any{}
+				for j := 0; j < n; j++ {
+					o := map[string]any{"id": float64(j + 1), "v": gen.Scalar(c.R, gen.PTiny), "w": gen.Scalar(c.R, gen.PTiny)}
+					if j%2 == 0 {
+						o["k2"] = []string{"x", "y", "z", "w"}[j]
+					}
+					arr = append(arr, o)
+				}
+				return arr
+			}
+			a := mk()
+			b := ref.Clone(a).([]any)
+			for _, e := range b {
+				o := e.(map[string]any)
+				if c.R.Chance(0.6) {
+					o["v"] = gen.Scalar(c.R, gen.PTiny)
+				}
+				if c.R.Chance(0.5) {
+					o["w"] = gen.Scalar(c.R, gen.PTiny)
+				}
+				if c.R.Chance(0.2) {
+					delete(o, "v")
+				}
+			}
+			gen.Shuffle(c.R, b)
+			c.Feature("partial_key_members")
+			var av, bv any = a, b
+			if i%2 == 1 {
+				av, bv = map[string]any{"items": a}, map[string]any{"items": b}
+			}
+			c17Judge(c, ref.ToJSON(av), ref.ToJSON(bv), m)
+		},
+	})
+	p.Strata = append(p.Strata, mon.Stratum{
 		Name: "very-long-lines",
 		N:    qt(40, 800),
 		Run: func(c *mon.Ctx, i int) {
